@@ -62,7 +62,8 @@ def run(chk: Check) -> None:
             elif isinstance(par, ast.Attribute) and par.attr in NX_MUTATORS and \
                     isinstance(getattr(par, "_parent", None), ast.Call):
                 kind = "mutate:" + par.attr
-                ok = inside and f.name in ("add", "discard", "clear")
+                allowed = {"add": {"add_edge"}, "discard": {"remove_edge"}, "clear": {"clear"}}
+                ok = inside and par.attr in allowed.get(f.name, set())
             elif isinstance(par, ast.Subscript) and isinstance(par.ctx, (ast.Store, ast.Del)):
                 kind = "item-assign"
                 ok = False
